@@ -13,13 +13,15 @@ EXTENDS Integers, Sequences, FiniteSets, TLC, Json
 CONSTANT TraceFile
 TraceLog == ndJsonDeserialize(TraceFile)
 VARIABLES l, maxRecs, maxBytes, Called, HookBuf, HookUnbuf, Admitted, Blocked, Finished, Promised, Ret,
-          buffered, blocked, snap, flushOpen, traces
-vars == <<l, maxRecs, maxBytes, Called, HookBuf, HookUnbuf, Admitted, Blocked, Finished, Promised, Ret, buffered, blocked, snap, flushOpen, traces>>
+          buffered, blocked, snap, flushOpen, traces, callSeq, retSeq, ackAt, hazard
+vars == <<l, maxRecs, maxBytes, Called, HookBuf, HookUnbuf, Admitted, Blocked, Finished, Promised, Ret, buffered, blocked, snap, flushOpen, traces, callSeq, retSeq, ackAt, hazard>>
 Empty == [x \in {} |-> ""]
 Fresh(mr, mb) == /\ maxRecs' = mr /\ maxBytes' = mb /\ Called' = {} /\ HookBuf' = {} /\ HookUnbuf' = Empty /\ Admitted' = {} /\ Blocked' = {}
                  /\ Finished' = {} /\ Promised' = Empty /\ Ret' = {} /\ buffered' = 0 /\ blocked' = 0 /\ snap' = [x \in {} |-> {}] /\ flushOpen' = {}
+                 /\ callSeq' = [x \in {} |-> 0] /\ retSeq' = [x \in {} |-> 0] /\ ackAt' = [x \in {} |-> <<0, 0>>] /\ hazard' = FALSE
 Init == /\ l = 1 /\ maxRecs = 0 /\ maxBytes = 0 /\ Called = {} /\ HookBuf = {} /\ HookUnbuf = Empty /\ Admitted = {} /\ Blocked = {}
         /\ Finished = {} /\ Promised = Empty /\ Ret = {} /\ buffered = 0 /\ blocked = 0 /\ snap = [x \in {} |-> {}] /\ flushOpen = {} /\ traces = 0
+        /\ callSeq = [x \in {} |-> 0] /\ retSeq = [x \in {} |-> 0] /\ ackAt = [x \in {} |-> <<0, 0>>] /\ hazard = FALSE
 Ev == TraceLog[l]
 Put(f, k, v) == [x \in (DOMAIN f) \cup {k} |-> IF x = k THEN v ELSE f[x]]
 Has(e, k) == k \in DOMAIN e
@@ -54,6 +56,17 @@ Checks(e) ==
                               <<e.bufferedRecords = 0 /\ e.bufferedBytes = 0 /\ buffered = 0 /\ blocked = 0, "BufferedProduceRecords/Bytes not zero after all promises ran">>,
                               <<flushOpen = {}, "a Flush never returned although nothing is buffered">>,
                               <<Len(e.stuck) = 0, "a call never returned (Produce / Flush / Close blocked forever)">> >>
+    [] e.ev = "log" /\ ~hazard ->
+         LET E == e.entries                                   \* <<partition, offset, id>>
+             At(id) == {i \in DOMAIN E : E[i][3] = id}
+             Acked == DOMAIN ackAt
+             \* client-initiated abandonment (Close, AbortBufferedRecords, purge) leaves the outcome of in-flight batches open by design
+             Abandoned(err) == err \in {"ErrClientClosed", "ErrAborting", "err:topic purged while buffered"}
+         IN << <<\A i, j \in DOMAIN E : (E[i][3] = E[j][3]) => i = j, "idempotent producing: a record appears twice in the log">>,
+               <<\A id \in Acked : \E i \in At(id) : E[i][1] = ackAt[id][1] /\ E[i][2] = ackAt[id][2], "idempotent producing: an acknowledged record is not in the log at the offset given to its promise">>,
+               <<\A a, b \in Acked : (ackAt[a][1] = ackAt[b][1] /\ a \in DOMAIN retSeq /\ b \in DOMAIN callSeq /\ retSeq[a] < callSeq[b]) => ackAt[a][2] < ackAt[b][2],
+                 "idempotent producing: acknowledged records of one partition are not in produce order">>,
+               <<\A id \in DOMAIN Promised : (Promised[id] # "" /\ ~Abandoned(Promised[id])) => At(id) = {}, "idempotent producing: a record whose promise reported an error is in the log">> >>
     [] e.ev \in {"close_stuck", "driver_failed"} -> << <<FALSE, "Close did not return / driver died">> >>
     [] OTHER -> <<>>
 Ok(e) == \A i \in DOMAIN Checks(e) : Checks(e)[i][1]
@@ -61,19 +74,23 @@ Why(e) == LET C == Checks(e) bad == {i \in DOMAIN C : ~C[i][1]} IN IF bad = {} T
 \* ---- state update
 Apply(e) ==
   CASE e.ev = "reset" -> Fresh(e.maxRecs, e.maxBytes) /\ traces' = traces + 1
-    [] e.ev = "call" -> Called' = Called \cup {e.id} /\ UNCHANGED <<maxRecs, maxBytes, HookBuf, HookUnbuf, Admitted, Blocked, Finished, Promised, Ret, buffered, blocked, snap, flushOpen, traces>>
-    [] e.ev = "hook_buffered" -> HookBuf' = HookBuf \cup {e.id} /\ UNCHANGED <<maxRecs, maxBytes, Called, HookUnbuf, Admitted, Blocked, Finished, Promised, Ret, buffered, blocked, snap, flushOpen, traces>>
-    [] e.ev = "hook_unbuffered" -> HookUnbuf' = Put(HookUnbuf, e.id, e.err) /\ UNCHANGED <<maxRecs, maxBytes, Called, HookBuf, Admitted, Blocked, Finished, Promised, Ret, buffered, blocked, snap, flushOpen, traces>>
-    [] e.ev = "prod.block" -> Blocked' = Blocked \cup {e.id} /\ blocked' = blocked + 1 /\ UNCHANGED <<maxRecs, maxBytes, Called, HookBuf, HookUnbuf, Admitted, Finished, Promised, Ret, buffered, snap, flushOpen, traces>>
-    [] e.ev = "prod.unblock" -> Blocked' = Blocked \ {e.id} /\ blocked' = blocked - 1 /\ UNCHANGED <<maxRecs, maxBytes, Called, HookBuf, HookUnbuf, Admitted, Finished, Promised, Ret, buffered, snap, flushOpen, traces>>
-    [] e.ev = "prod.admit" -> Admitted' = Admitted \cup {e.id} /\ buffered' = buffered + 1 /\ UNCHANGED <<maxRecs, maxBytes, Called, HookBuf, HookUnbuf, Blocked, Finished, Promised, Ret, blocked, snap, flushOpen, traces>>
-    [] e.ev = "prod.finish" -> Finished' = Finished \cup {e.id} /\ buffered' = buffered - 1 /\ UNCHANGED <<maxRecs, maxBytes, Called, HookBuf, HookUnbuf, Admitted, Blocked, Promised, Ret, blocked, snap, flushOpen, traces>>
-    [] e.ev = "promise" -> Promised' = Put(Promised, e.id, e.err) /\ UNCHANGED <<maxRecs, maxBytes, Called, HookBuf, HookUnbuf, Admitted, Blocked, Finished, Ret, buffered, blocked, snap, flushOpen, traces>>
-    [] e.ev = "ret" -> Ret' = Ret \cup {e.id} /\ UNCHANGED <<maxRecs, maxBytes, Called, HookBuf, HookUnbuf, Admitted, Blocked, Finished, Promised, buffered, blocked, snap, flushOpen, traces>>
+    [] e.ev = "call" -> Called' = Called \cup {e.id} /\ callSeq' = Put(callSeq, e.id, e.seq) /\ UNCHANGED <<maxRecs, maxBytes, HookBuf, HookUnbuf, Admitted, Blocked, Finished, Promised, Ret, buffered, blocked, snap, flushOpen, traces, retSeq, ackAt, hazard>>
+    [] e.ev = "hook_buffered" -> HookBuf' = HookBuf \cup {e.id} /\ UNCHANGED <<maxRecs, maxBytes, Called, HookUnbuf, Admitted, Blocked, Finished, Promised, Ret, buffered, blocked, snap, flushOpen, traces, callSeq, retSeq, ackAt, hazard>>
+    [] e.ev = "hook_unbuffered" -> HookUnbuf' = Put(HookUnbuf, e.id, e.err) /\ UNCHANGED <<maxRecs, maxBytes, Called, HookBuf, Admitted, Blocked, Finished, Promised, Ret, buffered, blocked, snap, flushOpen, traces, callSeq, retSeq, ackAt, hazard>>
+    [] e.ev = "prod.block" -> Blocked' = Blocked \cup {e.id} /\ blocked' = blocked + 1 /\ UNCHANGED <<maxRecs, maxBytes, Called, HookBuf, HookUnbuf, Admitted, Finished, Promised, Ret, buffered, snap, flushOpen, traces, callSeq, retSeq, ackAt, hazard>>
+    [] e.ev = "prod.unblock" -> Blocked' = Blocked \ {e.id} /\ blocked' = blocked - 1 /\ UNCHANGED <<maxRecs, maxBytes, Called, HookBuf, HookUnbuf, Admitted, Finished, Promised, Ret, buffered, snap, flushOpen, traces, callSeq, retSeq, ackAt, hazard>>
+    [] e.ev = "prod.admit" -> Admitted' = Admitted \cup {e.id} /\ buffered' = buffered + 1 /\ UNCHANGED <<maxRecs, maxBytes, Called, HookBuf, HookUnbuf, Blocked, Finished, Promised, Ret, blocked, snap, flushOpen, traces, callSeq, retSeq, ackAt, hazard>>
+    [] e.ev = "prod.finish" -> Finished' = Finished \cup {e.id} /\ buffered' = buffered - 1 /\ UNCHANGED <<maxRecs, maxBytes, Called, HookBuf, HookUnbuf, Admitted, Blocked, Promised, Ret, blocked, snap, flushOpen, traces, callSeq, retSeq, ackAt, hazard>>
+    [] e.ev = "promise" -> Promised' = Put(Promised, e.id, e.err) /\ ackAt' = (IF e.err = "" THEN Put(ackAt, e.id, <<e.partition, e.offset>>) ELSE ackAt)
+                           /\ UNCHANGED <<maxRecs, maxBytes, Called, HookBuf, HookUnbuf, Admitted, Blocked, Finished, Ret, buffered, blocked, snap, flushOpen, traces, callSeq, retSeq, hazard>>
+    [] e.ev = "ret" -> Ret' = Ret \cup {e.id} /\ retSeq' = Put(retSeq, e.id, e.seq) /\ UNCHANGED <<maxRecs, maxBytes, Called, HookBuf, HookUnbuf, Admitted, Blocked, Finished, Promised, buffered, blocked, snap, flushOpen, traces, callSeq, ackAt, hazard>>
     [] e.ev = "flush_call" -> snap' = Put(snap, e.f, Ret \cap Admitted) /\ flushOpen' = flushOpen \cup {e.f}
-                              /\ UNCHANGED <<maxRecs, maxBytes, Called, HookBuf, HookUnbuf, Admitted, Blocked, Finished, Promised, Ret, buffered, blocked, traces>>
-    [] e.ev = "flush_ret" -> flushOpen' = flushOpen \ {e.f} /\ UNCHANGED <<maxRecs, maxBytes, Called, HookBuf, HookUnbuf, Admitted, Blocked, Finished, Promised, Ret, buffered, blocked, snap, traces>>
-    [] OTHER -> UNCHANGED <<maxRecs, maxBytes, Called, HookBuf, HookUnbuf, Admitted, Blocked, Finished, Promised, Ret, buffered, blocked, snap, flushOpen, traces>>
+                              /\ UNCHANGED <<maxRecs, maxBytes, Called, HookBuf, HookUnbuf, Admitted, Blocked, Finished, Promised, Ret, buffered, blocked, traces, callSeq, retSeq, ackAt, hazard>>
+    [] e.ev = "flush_ret" -> flushOpen' = flushOpen \ {e.f} /\ UNCHANGED <<maxRecs, maxBytes, Called, HookBuf, HookUnbuf, Admitted, Blocked, Finished, Promised, Ret, buffered, blocked, snap, traces, callSeq, retSeq, ackAt, hazard>>
+    \* PurgeTopicsFromProducing documents that records produced to the purged topic afterwards (including Produce calls still
+    \* blocked at that moment) may be silently discarded by the broker: the log clauses do not apply to such a run
+    [] e.ev = "purge" /\ e.topic = "t" -> hazard' = TRUE /\ UNCHANGED <<maxRecs, maxBytes, Called, HookBuf, HookUnbuf, Admitted, Blocked, Finished, Promised, Ret, buffered, blocked, snap, flushOpen, traces, callSeq, retSeq, ackAt>>
+    [] OTHER -> UNCHANGED <<maxRecs, maxBytes, Called, HookBuf, HookUnbuf, Admitted, Blocked, Finished, Promised, Ret, buffered, blocked, snap, flushOpen, traces, callSeq, retSeq, ackAt, hazard>>
 Next == l <= Len(TraceLog) /\ Ok(Ev) /\ Apply(Ev) /\ l' = l + 1
 Spec == Init /\ [][Next]_vars
 \* invariants evaluated in every state of every validated trace
